@@ -210,6 +210,22 @@ def obj_of_key(key):
     return None
 
 
+def nets_conflict(kvs):
+    """an explicit nets= and a non-empty nets restriction that is in force: nets= first (any later non-empty
+    restriction), or restriction first and not withdrawn by an empty only_nets=/no_nets= before the nets="""
+    last_restr, explicit = "", False
+    for k, v in kvs:
+        if k in ("only_nets", "no_nets"):
+            if v != "" and explicit:
+                return True
+            last_restr = v
+        elif k == "nets":
+            if last_restr != "":
+                return True
+            explicit = True
+    return False
+
+
 def judge(ctx, env, args, res, nodes):
     """spec oracle on the implementation's own output for one argument list"""
     av = env["avail"]
@@ -226,24 +242,21 @@ def judge(ctx, env, args, res, nodes):
         ctx.violate("unknown-vm-accepted", f"vms= with an unavailable vm accepted: {args}", case)
     bad_obj = [k for k, v in kvs if obj_of_key(k) is not None and obj_of_key(k) not in av["vms"] + ["nets"]]
     if bad_obj and kind == "ok":
-        ctx.count("finding.object-restr-prefix")
         ctx.violate("object-restr-prefix-match",
-                    f"object restriction {bad_obj[0]} names no available object ({av['vms']} or nets) but is accepted "
-                    f"(keys are matched by prefix): vm_strs={out['vm_strs']} param_dict={out['param_dict']}", case)
-    has_nets = any(k == "nets" for k, v in kvs)
-    has_restr = any(k in ("only_nets", "no_nets") and v != "" for k, v in kvs)
-    if has_nets and has_restr and kind == "ok":
-        ctx.count("finding.nets-conflict-order")
+                    f"object restriction {bad_obj[0]} names no available object ({av['vms']} or nets) but is accepted: "
+                    f"vm_strs={out['vm_strs']} param_dict={out['param_dict']}", case)
+    conflict = nets_conflict(kvs)
+    if conflict and kind == "ok":
         ctx.violate("nets-conflict-order",
-                    f"explicit nets= together with a non-empty only_nets=/no_nets= accepted (nets = "
-                    f"{out['param_dict'].get('nets')!r}); the reverse order raises ValueError", case)
+                    f"explicit nets= together with a non-empty only_nets=/no_nets= (not withdrawn by a later empty one) "
+                    f"accepted (nets = {out['param_dict'].get('nets')!r}); the other order raises ValueError", case)
     if unknown_vm or bad_obj:
         return
     default = dict(kvs).get("default_only", av["default"] or "all").replace(",", " ")
     want_str = spec_tests_str(av, args, default)
     if kind != "ok":
         # an error must have a documented reason: conflict, invalid default, invalid/empty restriction
-        reasons = has_nets and has_restr
+        reasons = conflict
         reasons = reasons or (want_str.endswith(f"only {default}\n") and default not in av["restr"] and
                               not any(k in ("only", "no") and any(t in av["restr"] for t in re.findall(r"[^,.]+", v))
                                       for k, v in kvs))
@@ -643,7 +656,8 @@ def equivalences(ctx, env, gen, n):
                                 {"kind": "equiv", "lists": [l1, l2]})
 
 
-WITNESSES = [["nets=net1", "only_nets=net2"], ["only_nets=net2", "nets=net1"], ["only_vm10=x"], ["only_vm1_vm1=Fedora"],
+WITNESSES = [["only_nets=net2", "only_nets=", "nets=net1"], ["nets=net1", "aaa=b", "no_nets=net2"], ["only_nets_nets=net1"],
+             ["nets=net1", "only_nets=net2"], ["only_nets=net2", "nets=net1"], ["only_vm10=x"], ["only_vm1_vm1=Fedora"],
              ["only=tutorial1"], ["only=minimal", "only=quicktest"], ["only=normal", "no=tutorial1"], ["aaa=bbb", "ccc"],
              ["vms=vmX"], ["default_only=nonminimal"], ["only=install"], ["only_nets="], ["only_nets=", "nets=net1"],
              ["only_vm1=", "only_vm2=Win10"], ["vms=vm2", "only_vm2=Win7"], ["only=a..b"], ["only="], []]
